@@ -7,7 +7,7 @@ ROOT = os.path.dirname(os.path.dirname(os.path.abspath(__file__)))
 
 
 def main(ids, tier="quick", props=None):
-    res_path = os.path.join(ROOT, "seeded", "RESULTS.json")
+    res_path = os.environ.get("SEED_RESULTS") or os.path.join(ROOT, "seeded", "RESULTS.json")
     results = json.load(open(res_path)) if os.path.exists(res_path) else {}
     man = json.load(open(os.path.join(ROOT, "MANIFEST.json")))
     claimed = [c["property_id"] for c in man["checks"]]
